@@ -51,6 +51,7 @@ THEOREMS = [
     "Jinns.Rar.genInv_init",
     "Jinns.Rar.gen_trigger_refines",
     "Jinns.Rar.gen_getBatch_inv",
+    "Jinns.Rar.gen_run_active",
     "Jinns.Rar.add_passes_sideCheck",
 ]
 LEAN_MODULES = ["JinnsProofs.C17"]
@@ -64,7 +65,10 @@ ASSUMPTIONS = [
     "jax.random.choice(replace=False, p) keeps zero-probability entries last (validated on every observed reshuffle)",
     "the candidates, residuals and indices reported by the guarded hook are those the step uses (the hook sits "
     "between the selection and the store update); the reported residuals are compared with exact ones",
-    "selected sizes do not exceed candidate sizes (otherwise jax rejects the program at trace time)",
+    "legal configurations (Holds.legalCfg of C16) must run: their rejection at construction or trace time is the "
+    "Holds clause valid-configuration-rejected; a selected set larger than the sample or the store is illegal",
+    "system losses (ODE / stationary): the residual of a candidate is the sum over the equations of the squared "
+    "residuals, which is what the code computes",
 ]
 EXHAUSTIVE = {"quick": False, "thorough": False}
 
@@ -81,6 +85,13 @@ _STATICS = [
     ("nonstatio", 2, (10, 4, 1, 3, 2), (8, 2, 2, 2, 2)),
     ("nonstatio", 2, (9, 1, 3, 4, 1), (9, 3, 1, 4, 1)),
     ("nonstatio", 2, (8, 3, 2, 3, 1), (8, 3, 2, 3, 1)),
+    ("statio", 1, None, (11, 3, 2, 5, 2)),                     # 1-D space domain
+    ("nonstatio", 1, (8, 2, 2, 4, 1), (10, 4, 3, 5, 2)),       # 1-D space domain
+]
+# systems of two equations (SystemLossODE / SystemLossPDE): residual = sum of the squared residuals
+_SYSTEMS = [
+    ("ode", 0, (10, 2, 2, 5, 2), None),
+    ("statio", 2, None, (10, 3, 2, 5, 1)),
 ]
 
 
@@ -131,8 +142,9 @@ def gen_cases(rng, tier):
     cases = []
     scheds = [(0, 1), (0, 1), (1, 1), (0, 2), (1, 2)]
     if tier == "quick":
-        statics = [_STATICS[0], _STATICS[1], _STATICS[4], _STATICS[6], _STATICS[7], _STATICS[9], _STATICS[10]]
-        per_static, n_solve = 8, 1
+        statics = [_STATICS[0], _STATICS[1], _STATICS[4], _STATICS[6], _STATICS[7], _STATICS[9], _STATICS[10],
+                   _STATICS[11], _STATICS[12]]
+        per_static, n_solve = 6, 1
     else:
         statics = list(_STATICS) + [_random_static(rng, k) for k in ("ode", "statio", "nonstatio") for _ in range(6)]
         per_static, n_solve = 14, 4
@@ -146,11 +158,22 @@ def gen_cases(rng, tier):
             n_trig = min(8, c["start"] + c["every"] * (cap + 1) + rng.randint(0, 1))
             c["ops"] = _history(rng, c, n_trig, rng.choice([1, 3, 5]))
             cases.append(c)
+    for kind, dim, T, X in _SYSTEMS:
+        base = _base(rng, kind, dim, T, X, "trigger")
+        base["system"] = True
+        base["poly2"] = rarlib.random_landscape(rng, rarlib.nvars_of(base)).to_json()
+        cap = rarlib.cap_of(base)
+        for _ in range(3 if tier == "quick" else 10):
+            c = dict(base)
+            c["start"], c["every"] = rng.choice(scheds)
+            c["seed"] = rng.randrange(1 << 30)
+            c["ops"] = _history(rng, c, min(8, c["start"] + c["every"] * (cap + 1)), rng.choice([1, 3]))
+            cases.append(c)
     # a selected set larger than the store: jax rejects the program when trigger_rar is traced
     big = _base(rng, "ode", 0, (3, 2, 4, 5, 1), None, "trigger")
-    big.update(start=0, every=1, ops=[["draw"], ["trigger", 0, "0"]], may_reject="type_error")
+    big.update(start=0, every=1, ops=[["draw"], ["trigger", 0, "0"]], expect_error="type_error")
     cases.append(big)
-    solve_statics = [_STATICS[0], _STATICS[4], _STATICS[7], _STATICS[9]]
+    solve_statics = [_STATICS[0], _STATICS[4], _STATICS[7], _STATICS[9], _STATICS[12]]
     for kind, dim, T, X in solve_statics:
         base = _base(rng, kind, dim, T, X, "solve")
         cap = rarlib.cap_of(base)
@@ -187,8 +210,9 @@ def run_impl(case):
 
 
 def lean_request(case, obs):
+    req = {"op": "c17", "cfg": rarlib.cfg_json(case), "sizes": rarlib.sizes_json(case)}
     if "error" in obs:
-        return None
+        return {**req, "rejected": obs["error"]}
     init = obs["init"]
     evs = []
     for e in obs["events"]:
@@ -198,7 +222,7 @@ def lean_request(case, obs):
         evs.append(e)
     if case["mode"] == "solve":
         evs.append({"ev": "final", **obs["final"]})
-    return {"op": "c17", "cfg": rarlib.cfg_json(case), "bT": case["bT"], "bX": case["bX"],
+    return {**req, "bT": case["bT"], "bX": case["bX"],
             "storeT0": init.get("storeT", []), "storeX0": init.get("storeX", []),
             "pT0": init.get("pT", []), "pX0": init.get("pX", []),
             "tlo": [str(case["tmin"])], "thi": [str(case["tmax"])],
@@ -208,9 +232,13 @@ def lean_request(case, obs):
 
 def judge(case, obs, answer):
     if "error" in obs:
-        if obs["error"] in (case.get("expect_error"), case.get("may_reject")):
-            return {"status": "ok", "clause": None}
-        return {"status": "disagree", "clause": "unexpected-rejection:" + obs["error"], "message": obs.get("message")}
+        # Holds.C17: a legal configuration must not be rejected (constructor or trace time)
+        if not answer["holds"]:
+            return {"status": "violation", "clause": answer["clause"], "error": obs["error"],
+                    "message": obs.get("message")}
+        return {"status": "ok", "clause": None}
+    if not answer["legal"]:
+        return {"status": "disagree", "clause": "accepted-although-the-model-rejects"}
     if not answer["holds"]:
         return {"status": "violation", "clause": answer["clause"]}
     if any(e.get("n_hook_records", 0) > 1 for e in obs["events"]):
@@ -252,7 +280,9 @@ def tags(case, obs):
     if "error" in obs:
         return ["rejected:" + obs["error"]]
     st = _step_events(obs)
-    out = [f"kind={case['kind']}", f"mode={case['mode']}", f"steps={len(st)}"]
+    out = [f"kind={case['kind']}", f"mode={case['mode']}", f"dim={case['dim']}", f"steps={len(st)}"]
+    if case.get("system"):
+        out.append("system-loss")
     ties = False
     for e in st:
         flat = e["exact"] if case["kind"] != "nonstatio" else [v for row in e["exact"] for v in row]
